@@ -10,4 +10,6 @@ require (
 
 require github.com/berquerant/ybase v0.7.0
 
+require gitlab.com/gomidi/midi/v2 v2.2.19 // indirect
+
 replace github.com/berquerant/crd => /repo
